@@ -27,9 +27,25 @@ var Yield func(point string)
 // LRUSize may replace the capacity of the PyPI resolver's caches.
 var LRUSize func(def int) int
 
+// Held is told when the calling task acquires (+1) or is about to release
+// (-1) a lock, so that the simulator never parks a task that holds one.
+var Held func(delta int)
+
 func Y(point string) {
 	if Yield != nil {
 		Yield(point)
+	}
+}
+
+func L() {
+	if Held != nil {
+		Held(1)
+	}
+}
+
+func U() {
+	if Held != nil {
+		Held(-1)
 	}
 }
 
@@ -44,6 +60,7 @@ func Size(n int) int {
 // Report says what was instrumented.
 type Report struct {
 	LockSites []string `json:"lock_sites"`
+	SyncSites []string `json:"sync_sites"`
 	SizeSites []string `json:"lru_size_sites"`
 	Files     int      `json:"files_rewritten"`
 }
@@ -98,25 +115,88 @@ func Generate(repo, dir string) (string, *Report, error) {
 		rel, _ := filepath.Rel(root, f)
 		var edits []edit
 		isPypi := af.Name.Name == "pypi"
+		isLockCall := func(e ast.Expr, names ...string) bool {
+			call, ok := e.(*ast.CallExpr)
+			if !ok || len(call.Args) != 0 {
+				return false
+			}
+			sel, ok := call.Fun.(*ast.SelectorExpr)
+			if !ok {
+				return false
+			}
+			for _, n := range names {
+				if sel.Sel.Name == n {
+					return true
+				}
+			}
+			return false
+		}
+		// hasSyncCall reports whether the statement itself (not nested blocks or
+		// function literals) calls a synchronisation primitive other than a
+		// mutex: sync.Map / atomic.Value style methods, sync/atomic functions,
+		// or a sync.Once.
+		hasSyncCall := func(st ast.Stmt) bool {
+			found := false
+			ast.Inspect(st, func(n ast.Node) bool {
+				switch x := n.(type) {
+				case *ast.BlockStmt, *ast.FuncLit:
+					return false
+				case *ast.CallExpr:
+					sel, ok := x.Fun.(*ast.SelectorExpr)
+					if !ok {
+						return true
+					}
+					switch sel.Sel.Name {
+					case "Load", "Store", "LoadOrStore", "LoadAndDelete", "CompareAndSwap", "CompareAndDelete", "Swap":
+						found = true
+					case "Do":
+						if id, ok := sel.X.(*ast.Ident); ok && strings.Contains(strings.ToLower(id.Name), "once") {
+							found = true
+						}
+						if in, ok := sel.X.(*ast.SelectorExpr); ok && strings.Contains(strings.ToLower(in.Sel.Name), "once") {
+							found = true
+						}
+					}
+					if id, ok := sel.X.(*ast.Ident); ok && id.Name == "atomic" {
+						found = true
+					}
+				}
+				return true
+			})
+			return found
+		}
 		var visitStmts func(list []ast.Stmt)
 		visitStmts = func(list []ast.Stmt) {
 			for _, st := range list {
-				es, ok := st.(*ast.ExprStmt)
-				if !ok {
-					continue
-				}
-				call, ok := es.X.(*ast.CallExpr)
-				if !ok || len(call.Args) != 0 {
-					continue
-				}
-				sel, ok := call.Fun.(*ast.SelectorExpr)
-				if !ok || (sel.Sel.Name != "Lock" && sel.Sel.Name != "RLock") {
-					continue
-				}
 				pos := fset.Position(st.Pos())
-				point := fmt.Sprintf("lock:%s:%d", rel, pos.Line)
-				edits = append(edits, edit{pos.Offset, fmt.Sprintf("verifhook.Y(%q); ", point)})
-				rep.LockSites = append(rep.LockSites, point)
+				end := fset.Position(st.End())
+				switch x := st.(type) {
+				case *ast.ExprStmt:
+					if isLockCall(x.X, "Lock", "RLock") {
+						point := fmt.Sprintf("lock:%s:%d", rel, pos.Line)
+						edits = append(edits, edit{pos.Offset, fmt.Sprintf("verifhook.Y(%q); ", point)}, edit{end.Offset, "; verifhook.L()"})
+						rep.LockSites = append(rep.LockSites, point)
+						continue
+					}
+					if isLockCall(x.X, "Unlock", "RUnlock") {
+						edits = append(edits, edit{pos.Offset, "verifhook.U(); "})
+						continue
+					}
+				case *ast.DeferStmt:
+					if isLockCall(x.Call, "Unlock", "RUnlock") {
+						cp := fset.Position(x.Call.Pos())
+						edits = append(edits, edit{cp.Offset, "func() { verifhook.U(); "}, edit{end.Offset, " }()"})
+						continue
+					}
+				}
+				switch st.(type) {
+				case *ast.ExprStmt, *ast.AssignStmt, *ast.IfStmt, *ast.ReturnStmt, *ast.DeclStmt, *ast.SwitchStmt, *ast.GoStmt:
+					if hasSyncCall(st) {
+						point := fmt.Sprintf("sync:%s:%d", rel, pos.Line)
+						edits = append(edits, edit{pos.Offset, fmt.Sprintf("verifhook.Y(%q); ", point)})
+						rep.SyncSites = append(rep.SyncSites, point)
+					}
+				}
 			}
 		}
 		ast.Inspect(af, func(n ast.Node) bool {
